@@ -282,7 +282,12 @@ EMBED_STRINGS: List[Tuple[str, bytes]] = [
 ]
 EMBED_SLOTS = ["embedded_f", "embedded_uf", "embedded_uf_utf16"]   # enumerated only: tools/dumppdf.py extractembedded (-E DIR)
 EMPTY_COMPONENT_ENVS = ["trail", "lead", "double"]                  # CMAP_PATH = "<dir>:", ":<dir>", "<dir>::/nonexistent"
-PAIR_SLOT = "image_pair"    # enumerated only: case["h"] and case["h2"] name two page-level images of the same kind
+PAIR_SLOT = "image_pair"
+# enumerated only: the output directory already holds Run<ext> and Run.0<ext> .. Run.<n-1><ext>; one image named Run is exported.
+# n ranges over bounds a maintainer might put on the search for an unused name; one image kind per exported extension.
+NUMBERED_SLOT = "numbered_run"
+NUMBERED_RUNS = [10, 100, 255, 256, 1000, 1001, 4096]
+NUMBERED_KINDS = [("gray8", ".bmp"), ("dct", ".jpg"), ("jbig2", ".jb2"), ("raw4", ".4.2x2.img"), ("cmyk8", ".8.2x2.img")]    # enumerated only: case["h"] and case["h2"] name two page-level images of the same kind
 
 IMAGE_KINDS = ["gray8", "rgb8", "bw1", "dct", "raw4", "cmyk8", "flate_gray8", "flate_cmyk", "jbig2"]
 BENIGN_ENC = [b"90ms-RKSJ-H", b"UniJIS-UCS2-H", b"VF-Custom-H", b"Identity-H", b"H", b"KSC-EUC-H"]
@@ -319,7 +324,11 @@ def minimums(tier: str) -> Dict[str, int]:
         "embed_family_runs_with_file_in_dir": 100,
         "embed_family_names_that_leave_dir_if_joined_unreduced": 45,
         "embed_input_reads_observed": 190,
-        "seen:slots": len(ALL_SLOTS) + 2 + len(EMBED_SLOTS),
+        # every run of the numbered-files family must end with exactly one new file and no existing file opened for writing
+        "numbered_run_family_runs": len(NUMBERED_RUNS) * len(NUMBERED_KINDS),
+        "numbered_run_exactly_one_new_file": len(NUMBERED_RUNS) * len(NUMBERED_KINDS),
+        "numbered_run_preexisting_files": sum(n + 1 for n in NUMBERED_RUNS) * len(NUMBERED_KINDS),
+        "seen:slots": len(ALL_SLOTS) + 3 + len(EMBED_SLOTS),
         "seen:otypes": 3,
         "seen:outmodes": len(OUTMODES),
         "seen:envmodes": 6,
@@ -416,6 +425,11 @@ def enum_cases() -> List[Dict[str, Any]]:
             add(slot, tag, h, otype="text", outmode=["abs", "rel", "odd", "link", "missing", "abs"][k % 6], env="set")
         for tag, h in EMBED_STRINGS:
             add(slot, tag, h, otype="text", outmode="abs", env="set")
+    # an output directory full of numbered files for the image's name
+    for k, n in enumerate(NUMBERED_RUNS):
+        for j, (kind, ext) in enumerate(NUMBERED_KINDS):
+            add(NUMBERED_SLOT, "numbered_%d" % n, b"Run", otype=OTYPES[(k + j) % 3], outmode="abs", env="set", v=4 * (k + j))
+            cases[-1].update({"n": n, "kind": kind, "ext": ext})
     # names routed through the symbolic links inside the CMAP_PATH directory
     for slot in ["encoding_name", "cmapname_stream", "cmapname_dict", "usecmap_cid", "usecmap_simple", "registry_sub",
                  "ordering_sub"]:
@@ -763,8 +777,11 @@ def build_doc(case: Dict[str, Any], h: bytes) -> Tuple[bytes, Dict[str, Any]]:
         return b"q 20 0 0 20 %d 400 cm " % x + ser_name(name) + b" Do Q\n"
 
     dictname = h if slot == "image_dict_name" else None
-    if slot in ("xobject_image", PAIR_SLOT):
+    if slot in ("xobject_image", PAIR_SLOT, NUMBERED_SLOT):
         nm1 = h
+    if slot == NUMBERED_SLOT:
+        kinds = [case["kind"]] * 2
+        facts["kinds"] = list(kinds)
     if slot == PAIR_SLOT:
         kinds = [PAIR_KINDS[v % len(PAIR_KINDS)]] * 2
         facts["kinds"] = list(kinds)
@@ -1007,6 +1024,16 @@ def run_case(case: Dict[str, Any], monitor: bool = True, rec: Any = None) -> Lis
     try:
         h = sc.subst(case["h"])
         embed = slot in EMBED_SLOTS
+        numbered_dir: Optional[str] = None
+        if slot == NUMBERED_SLOT:
+            # a directory of its own inside the usual output directory, filled just for this run and removed afterwards
+            numbered_dir = os.path.join(sc.physical_out, "numbered")
+            os.mkdir(numbered_dir)
+            for nm in ["Run"] + ["Run.%d" % i for i in range(case["n"])]:
+                with open(os.path.join(numbered_dir, nm + case["ext"]), "wb") as f:
+                    f.write(b"S")
+            sc.output_dir = sc.eff_out = numbered_dir
+            sc.outbase = "numbered"
         data, facts = build_embedded_doc(case, h) if embed else build_doc(case, h)
         if embed and (sc.eff_out is None or not _embed_target_in_root(sc, h)):
             if rec is not None:
@@ -1030,7 +1057,7 @@ def run_case(case: Dict[str, Any], monitor: bool = True, rec: Any = None) -> Lis
                 f.write(data)
             tool = _dumppdf()
         policy = Policy(sc.read_dirs(), sc.eff_out, inpath)
-        before = sc.pristine
+        before = sc.pristine if numbered_dir is None else snapshot(sc.root)
         libsig = dir_signature(LIB_CMAP_DIR)
         outfp = io.BytesIO()
         exc: Optional[BaseException] = None
@@ -1157,6 +1184,12 @@ def run_case(case: Dict[str, Any], monitor: bool = True, rec: Any = None) -> Lis
                     if not inside(sc.eff_out, os.path.realpath(os.path.join(sc.eff_out, "000002-" + cand))):
                         leaves = 1
                 rec.count("embed_family_names_that_leave_dir_if_joined_unreduced", leaves)
+            if slot == NUMBERED_SLOT:
+                rec.count("numbered_run_family_runs")
+                rec.count("numbered_run_preexisting_files", case["n"] + 1)
+                rec.count("numbered_run_exactly_one_new_file", int(created_files == 1 and len(created) == 1))
+                rec.count("numbered_run_new_file_is_next_number",
+                          int(os.path.join(numbered_dir, "Run.%d%s" % (case["n"], case["ext"])) in created))
             if slot == PAIR_SLOT:
                 rec.count("pair_family_runs")
                 rec.count("pair_family_two_files_created", int(created_files >= 2))
@@ -1186,6 +1219,10 @@ def run_case(case: Dict[str, Any], monitor: bool = True, rec: Any = None) -> Lis
             os.environ.pop("CMAP_PATH", None)
         else:
             os.environ["CMAP_PATH"] = old_env
+        nd = os.path.join(sc.physical_out, "numbered")
+        if os.path.isdir(nd) and not os.path.islink(nd):
+            shutil.rmtree(nd, ignore_errors=True)       # planted by the harness for the numbered-files family
+            created = [p for p in created if not inside(nd, p)]
         if not sc.restore(created, dirty):
             _drop_scratch()
         for p in escaped_outside_root:   # a defective tree wrote outside the scratch root: remove what it created
